@@ -294,12 +294,67 @@ def check_views(ctx):
             ctx.disagree("tfm_for_view differs from the Lean model tfmForView", cj)
 
 
+def check_expand_large(ctx):
+    """Expanding by reciprocity with the probe sizes and index containers of real acquisitions: 12-40 elements, the (tx, rx)
+    arrays held in the narrow integer types acquisition files use (uint8 ... int64), timetraces in any order.  The expanded
+    frame holds each ordered pair once, carrying the data of its recorded pair, and its image is the full-matrix image."""
+    import arim
+    from arim.im import tfm
+
+    rng = ctx.rng
+    for k in range(4 * ctx.scale):
+        numel = int([12, 17, 24, 40][k % 4] if k < 8 else rng.integers(6, 41))
+        idt = [np.uint8, np.int8, np.int16, np.uint16, np.uint32, np.int64][int(rng.integers(0, 6))]
+        if numel - 1 > np.iinfo(idt).max:
+            idt = np.int16
+        ns = 6
+        probe = arim.Probe.make_matrix_probe(numel, 0.5e-3, 1, np.nan, 5e6)
+        G = sym_data(rng, numel, ns, False)
+        order = ["canonical", "rx_major", "shuffled"][int(rng.integers(0, 3))]
+        pairs = pairs_of(numel, "hmc")
+        if order == "rx_major":
+            pairs = sorted(pairs, key=lambda p: (p[1], p[0]))
+        elif order == "shuffled":
+            pairs = [pairs[i] for i in rng.permutation(len(pairs))]
+        if rng.random() < 0.3:
+            pairs = [(j, i) if rng.random() < 0.5 else (i, j) for i, j in pairs]     # a half matrix need not be the upper one
+        tt = np.array([G[i, j] for i, j in pairs])
+        t0, dt = 0.0, 1e-7
+        fr = fixtures.make_frame(tt, t0, dt, np.array([i for i, _ in pairs], dtype=idt), np.array([j for _, j in pairs], dtype=idt), probe, None)
+        cj = {"op": "expand_large", "numel": numel, "index_dtype": np.dtype(idt).name, "order": order, "pairs": [list(p) for p in pairs[:50]], "seed_data": "symmetric integers"}
+        ctx.case(("expand_large", numel, np.dtype(idt).name, order), True, sample={"op": "expand_large", "numel": numel, "dtype": np.dtype(idt).name, "order": order})
+        ctx.count("expand_large:" + np.dtype(idt).name)
+        try:
+            fe = fr.expand_frame_assuming_reciprocity()
+        except Exception as e:
+            ctx.violate(f"expand_frame_assuming_reciprocity raised {type(e).__name__}: {str(e)[:80]} on a half matrix with {np.dtype(idt).name} indices", cj, {"kind": "expand_large"})
+            continue
+        got = list(zip((int(a) for a in fe.tx), (int(b) for b in fe.rx)))
+        if sorted(got) != pairs_of(numel, "fmc"):
+            ctx.violate(f"expanded frame holds {len(got)} timetraces / {len(set(got))} distinct pairs instead of the {numel * numel} ordered pairs "
+                        f"({numel} elements, {np.dtype(idt).name} indices, {order} order)", cj, {"kind": "expand_large"})
+            continue
+        bad = [(i, j) for m, (i, j) in enumerate(got) if not np.array_equal(np.asarray(fe.timetraces[m]), G[i, j])]
+        if bad:
+            ctx.violate(f"expanded frame: {len(bad)} timetraces do not carry the data of their recorded pair, first {bad[0]} "
+                        f"({numel} elements, {np.dtype(idt).name} indices, {order} order)", cj, {"kind": "expand_large"})
+            continue
+        grid = arim.Grid(-1e-3, 1e-3, 0.0, 0.0, 2e-3, 2e-3, 2e-3)
+        v = 6000.0
+        ffull = make_frame(G, pairs_of(numel, "fmc"), t0, dt, probe)
+        r_e = tfm.contact_tfm(fe, grid, v, interpolation="nearest").res
+        r_f = tfm.contact_tfm(ffull, grid, v, interpolation="nearest").res
+        if not close(r_e, r_f, np.abs(G).max() * 2, numel * numel):
+            ctx.violate("expand-by-reciprocity then contact TFM differs from the full-matrix image (large probe)", cj, {"kind": "expand_large"})
+
+
 def run(ctx):
     ctx.rule = ("random linear/matrix probes (1-10 elements, moved), grids of 1-9 points, velocities, time axes cutting the window, symmetric integer data "
                 "(real/complex), FMC/HMC in random order, nearest/linear; immersion and contact views with 0-1 reflections ray-traced on 10-40 wall points, "
                 "C/Fortran ray order; unit-spike data; distinct = distinct set-up; non-trivial = at least two elements / view differs from its reciprocal")
     check_contact(ctx)
     check_views(ctx)
+    check_expand_large(ctx)
     ctx.assumptions += ["fill value 0 for the HMC=FMC identity (with a non-zero fill the two images differ by the fill's share, as the property's formula says)"]
 
 
